@@ -22,6 +22,7 @@ func checkC13(c *Ctx) {
 	c.queueIndexRules()
 	c.terminalTables()
 	c.ackAcceptsTypes()
+	c.waitAcceptsRequests()
 	c.dedupInsert()
 	c.ackUpdatesOwnSlot()
 	c.headOnlyRelease()
